@@ -249,6 +249,7 @@ pub fn bounds(tier: Tier) -> Bounds {
 pub fn c01_cases(b: &Bounds) -> Vec<CaseDesc> {
     let mut cases = value_cases(Codec::Binary, &crate::vals::binary_types(), b.k3, b.large);
     cases.extend(topo_cases(b.topo_nodes, b.topo_classes));
+    cases.extend(crate::codec::service_topo_cases(b.topo_nodes));
     for l in crate::vals::text_alphabet(b.large) {
         cases.push(CaseDesc::Name { label: l.0 });
     }
@@ -258,6 +259,7 @@ pub fn c01_cases(b: &Bounds) -> Vec<CaseDesc> {
 pub fn c02_cases(b: &Bounds) -> Vec<CaseDesc> {
     let mut cases = value_cases(Codec::Xml, &crate::vals::xml_types(), b.k3, b.large);
     cases.extend(topo_cases(b.topo_nodes, b.topo_classes));
+    cases.extend(crate::codec::service_topo_cases(b.topo_nodes));
     for l in crate::vals::text_alphabet(b.large) {
         cases.push(CaseDesc::Name { label: l.0 });
     }
